@@ -248,6 +248,11 @@ class VM:
         if self.start_time is None:
             self.start_time = time.monotonic()
 
+        # var declarations are hoisted: the variables exist before the code runs
+        for name in compiled.global_vars:
+            if name not in self.globals:
+                self.globals[name] = UNDEFINED
+
         # Create initial call frame
         frame = CallFrame(
             func=compiled,
